@@ -23,7 +23,12 @@ FUNCTIONS = ["Path.__init__/from_nodes/get_refined/getKline/get_K_list/get_kpoin
 BOUNDS = dict(quick=dict(nodes="2..4 nodes with <= 1 break, coordinates symbolic reals in [-1/2,1/2]", nk="2..4 per segment (scalar or list); dk / length with symbolic segment lengths (1..3 intervals)",
                          refinement="factor 1..3", Kline="break_thresh = inf and a symbolic threshold", tabulation="concrete paths of 5..7 points (closed loop, k and k+G, break), k_batch 1,2,3,100, "
                          "<= 4 batches: all arrival orders, more: rotations and reversals of the list order", values="one symbolic atom per (k-point mod G, band, component)"),
-              thorough=dict(nodes="2..5 nodes with <= 2 breaks", nk="2..5", refinement="factor 1..4", Kline="as quick", tabulation="as quick, <= 5 batches all orders", values="as quick"))
+              thorough=dict(nodes="2..8 nodes with <= 3 breaks (also leading single nodes and double None), coordinates symbolic reals in [-1/2,1/2]",
+                            nk="2..7 per segment, non-uniform lists such as [2,5,3,2,6], [4,4,2,3,5,2]; dk / length with 1..6 symbolic segments and up to 6 candidate point counts per segment (up to 243 feasible count patterns)",
+                            refinement="factor 1..5 and depth 2..3 (refined path refined again: 2x3, 3x2x2, 2x2x3, 5x2, 4x3, 1x4x2)", Kline="break_thresh = inf, and a symbolic threshold on direct paths of <= 8 points (every above/below pattern of the steps is a path)",
+                            direct_paths="3..12 points, labels and up to 3 breaks at arbitrary positions",
+                            tabulation="concrete paths of 5..12 points (closed loop, k and k+G, breaks, repeated points, 12-point path with 4 non-uniform segments), k_batch 1,2,3,4,5,7,100, "
+                            "<= 8 batches: all arrival orders (5040 for 7 split over 7 cases, 40320 for 8 split over 56 cases), more: rotations and reversals", values="one symbolic atom per (k-point mod G, band, component), nb <= 4, rank <= 3"))
 EXPLANATION = ("Path.from_nodes/get_refined/getKline run on symbolic node coordinates (number of points from dk/length is decided by forks on the symbolic segment length); the resulting K_list is "
                "compared with an own statement (node rows exactly, interior points within the linspace rounding, refined points exactly, Kline steps = sqrt atoms >= 0, zero at breaks). "
                "Path tabulation drives the real run() on concrete paths with symbolic per-point values and a symbolic arrival order of the K-point batches; z3 decides that row i of the "
@@ -211,6 +216,9 @@ def law_refine_kline(ck, P, path):
         ck.ok(f"labels/breaks moved to the refined positions (factor {factor})", dict(ref.labels) == {pos[i]: l for i, l in labels0.items()} and list(ref.breaks) == [pos[i] for i in breaks0],
               K + "labels or breaks not moved with their points", f"{ref.labels} {ref.breaks}")
         ck.ok("original path unchanged", len(path.K_list) == n and dict(path.labels) == labels0 and list(path.breaks) == breaks0, K + "refining mutates the path")
+        for chain in (P.get("refine_again") or []):      # refinement depth 2..3: the refined path is refined again and compared with the statement relative to the (already checked) previous level
+            if chain[0] == factor and len(chain) > 1:
+                law_refine_kline(ck, dict(P, factors=[chain[1]], refine_again=[chain[1:]], thresholds=[], explicit_factor=True), ref)
     # path coordinate
     K = "Path.getKline: "
     for thr in P.get("thresholds", ["inf"]):
@@ -287,6 +295,11 @@ TAB_PATHS = dict(
     brk=dict(nodes=[[0, 0, 0], [0.5, 0, 0], None, [0.5, 0.5, 0.5], [1, 1, 1]], nk=[2, 3]),
     length=dict(nodes=[[0.25, -0.25, 0.1], [0.75, 0.25, 0.1], [-0.25, 0.75, 1.1]], length=4.0),
     klist=dict(k_list=[[0.1, 0.2, 0.3], [-0.4, 1.2, 0.3], [0.6, 0.2, -0.7], [0.1, 0.2, 0.3], [0.35, 0.0, 2.0]], labels={0: "a", 4: "b"}, breaks=[2]),
+    long=dict(nodes=[[0, 0, 0], [0.5, 0, 0], [0.5, 0.5, 0], None, [0, 0.5, 0.5], [1, 0.5, 0.5], [1, 1, 1]], nk=[3, 4, 2, 5], labels=["G", "X", "M", "Y", "Y'", "G'"]),
+    eight=dict(k_list=[[0.0, 0.0, 0.0], [0.25, 0.0, 0.0], [0.5, 0.0, 0.0], [0.25, 1.0, 0.0], [0.0, 0.0, 1.0], [0.5, 0.5, 0.0], [-0.5, 0.0, 0.0], [0.25, 0.25, 0.25]],
+               labels={0: "G", 4: "G", 7: "L"}, breaks=[4]),
+    zigzag=dict(k_list=[[0.25, 0.5, 0.0], [0.75, 0.5, 0.0], [0.25, 0.5, 0.0], [1.25, -0.5, 1.0], [0.75, 0.5, 0.0], [-0.25, 0.5, 2.0], [0.25, 0.5, 0.0], [0.3, 0.1, 0.9], [-0.75, 1.5, 0.0]],
+                labels={0: "P", 8: "Q"}, breaks=[3, 6]),
 )
 
 
@@ -413,7 +426,9 @@ def case_tab(rec, P):
     nbatch = P["nbatch"]
     olist = None if P["orders"] == "all" else orders(nbatch)
     if olist is None:
-        lifted, ass, _ = sym_permutation("p", list(range(nbatch)))
+        lifted, ass, pv = sym_permutation("p", list(range(nbatch)))
+        if P.get("first") is not None:          # the n! orders of a long list are split over n cases by the batch that arrives first
+            ass = ass + [pv[i] == f for i, f in enumerate(P["first"])]
     else:
         ch = z3.Int("order")
         ass = [ch >= 0, ch < len(olist)]
@@ -448,28 +463,42 @@ def _cases(tier, seed):
     # construction from nodes
     nk_cases = [("NN", 3, None), ("NNN", 4, ["A", "B", "C"]), ("NN-NN", [2, 3], None), ("N-NN", 3, ["G", "X", "Y"]), ("NNN", [2, 2], None), ("NN-N", 4, None)]
     if not q:
-        nk_cases += [("NNNN", [3, 2, 5], None), ("NN-N-NN", [4, 2], None), ("N--NN", 3, None), ("NNNNN", 2, None)]
+        nk_cases += [("NNNN", [3, 2, 5], None), ("NN-N-NN", [4, 2], None), ("N--NN", 3, None), ("NNNNN", 2, None),
+                     ("NNNNNN", [2, 5, 3, 2, 6], ["G", "X", "W", "K", "L", "U"]), ("NN-NNN-N-NN", [3, 2, 4, 5], None), ("N-N-N-NN", 2, ["a", "b", "c", "d", "e"]),
+                     ("NNNNNNN", [4, 4, 2, 3, 5, 2], None), ("NNN-NNN", 7, None), ("N-NNNN--NN", [6, 2, 3, 2], None)]
+    again = None if q else [[2, 3], [3, 2, 2], [2, 2, 3], [5, 2], [4, 3], [1, 4, 2]]
     for pat, nk, labels in nk_cases:
-        P = dict(pattern=pat, nnodes=pat.count("N"), mode="nk", nk=nk, labels=labels, factors=[1, 2, 3] if q else [1, 2, 3, 4], explicit_factor=len(pat) % 2 == 0, thresholds=["inf"])
-        out.append(Case(f"from_nodes {pat} nk={nk} labels={labels}", case_sym, dict(kind="nodes", P=P), timeout=900))
-    for pat, mode, dk in [("NN", "dk", 0.375), ("NNN", "length", 0.375), ("NN-N", "dk", 0.3125)] + ([] if q else [("NNN", "dk", 0.25), ("N-NN", "length", 0.3125)]):
+        P = dict(pattern=pat, nnodes=pat.count("N"), mode="nk", nk=nk, labels=labels, factors=[1, 2, 3] if q else [1, 2, 3, 4, 5], explicit_factor=len(pat) % 2 == 0, thresholds=["inf"], refine_again=again)
+        out.append(Case(f"from_nodes {pat} nk={nk} labels={labels}", case_sym, dict(kind="nodes", P=P), timeout=3000))
+    for pat, mode, dk in [("NN", "dk", 0.375), ("NNN", "length", 0.375), ("NN-N", "dk", 0.3125)] + ([] if q else [("NNN", "dk", 0.25), ("N-NN", "length", 0.3125), ("NNNN", "dk", 0.3125), ("NN-NNN", "length", 0.25),
+                                                                                                           ("NNN", "dk", 0.1875), ("NN-NN-NN", "dk", 0.375), ("NNNNN", "length", 0.4375),
+                                                                                                           ("NNNNNN", "dk", 0.4375), ("NNNN", "dk", 0.1875), ("N-NNN-NNN", "length", 0.3125)]):
         P = dict(pattern=pat, nnodes=pat.count("N"), mode=mode, dk=dk, labels=None, factors=[2], thresholds=["inf"], cartesian=True)
-        out.append(Case(f"from_nodes {pat} {mode}={dk if mode == 'dk' else 2 * np.pi / dk:.4f} (symbolic segment length decides nk)", case_sym, dict(kind="nodes", P=P), timeout=900))
-    for n, labs, brk in [(3, {0: "a", 2: "c"}, []), (4, {1: "x", 3: "y"}, [1]), (4, {2: "m"}, [0, 2])] + ([] if q else [(5, {0: "a", 2: "b", 4: "c"}, [1, 3]), (5, {4: "z"}, [3])]):
-        P = dict(nnodes=n, labels_at={str(k): v for k, v in labs.items()}, breaks=brk, factors=[1, 2, 3], thresholds=["inf", "thr"] if n <= 4 else ["inf"], cartesian=True)
-        out.append(Case(f"direct path n={n} labels={labs} breaks={brk} (refine, Kline with symbolic break_thresh)", case_sym, dict(kind="direct", P=P), timeout=900))
+        out.append(Case(f"from_nodes {pat} {mode}={dk if mode == 'dk' else 2 * np.pi / dk:.4f} (symbolic segment length decides nk)", case_sym, dict(kind="nodes", P=P), timeout=3000))
+    for n, labs, brk in [(3, {0: "a", 2: "c"}, []), (4, {1: "x", 3: "y"}, [1]), (4, {2: "m"}, [0, 2])] + ([] if q else [(5, {0: "a", 2: "b", 4: "c"}, [1, 3]), (5, {4: "z"}, [3]), (6, {1: "p", 4: "q", 5: "r"}, [2]),
+                                                                                                         (7, {0: "s", 3: "t", 6: "u"}, [1, 4]), (9, {2: "v", 8: "w"}, [0, 3, 7]), (8, {0: "h", 7: "i"}, [3]), (12, {0: "j", 5: "k", 11: "l"}, [2, 6, 9])]):
+        P = dict(nnodes=n, labels_at={str(k): v for k, v in labs.items()}, breaks=brk, factors=[1, 2, 3] if q else [1, 2, 3, 4, 5], thresholds=["inf", "thr"] if n <= (4 if q else 8) else ["inf"], cartesian=True,
+                 refine_again=again)
+        out.append(Case(f"direct path n={n} labels={labs} breaks={brk} (refine, Kline with symbolic break_thresh)", case_sym, dict(kind="direct", P=P), timeout=3000))
     # tabulation
-    maxall = 4 if q else 5
+    maxall = 4 if q else 6
     system = SimpleNamespace(real_lattice=PG.real_lattice, recip_lattice=PG.recip_lattice, pointgroup=PG, num_wann=2)
-    for name, nb, rank, ib in [("loop", 2, 1, None), ("brk", 3, 0, [2, 0]), ("length", 2, 2, None), ("klist", 2, 1, [1])]:
+    for name, nb, rank, ib in [("loop", 2, 1, None), ("brk", 3, 0, [2, 0]), ("length", 2, 2, None), ("klist", 2, 1, [1])] + ([] if q else [("long", 3, 1, [2, 0]), ("zigzag", 2, 2, None), ("long", 4, 3, [3, 1, 0]), ("eight", 2, 0, None)]):
         npts = len(build_tab_path(dict(path=name), system).K_list)
-        for kb in (1, 2, 3, 100):
+        for kb in ((1, 2, 3, 100) if q else (1, 2, 3, 4, 5, 7, 100)):
             nbatch = -(-npts // kb)
-            if kb == 3 and name not in ("loop", "klist"):
+            if q and kb == 3 and name not in ("loop", "klist"):
+                continue
+            if not q and ((nb == 4 and kb not in (3, 100)) or (kb in (4, 5, 7) and npts < 7)):
                 continue
             P = dict(path=name, nb=nb, rank=rank, ibands=ib, k_batch=kb, nbatch=nbatch, orders="all" if nbatch <= maxall else "rotations", evaluate_k=(kb == 100),
                      create_path=(name == "length" and kb == 2))
-            out.append(Case(f"tabulate path={name} ({npts} points) k_batch={kb} batches={nbatch} orders={P['orders']} nb={nb} rank={rank} ibands={ib}", case_tab, dict(P=P), timeout=1500))
+            if not q and nbatch in (7, 8):        # all 5040 / 40320 orders, 720 per case (split by the batches that arrive first / first and second)
+                for first in ([[f] for f in range(7)] if nbatch == 7 else [[f, g] for f in range(8) for g in range(8) if f != g]):
+                    out.append(Case(f"tabulate path={name} ({npts} points) k_batch={kb} batches={nbatch} orders=all with batches {first} arriving first nb={nb} rank={rank} ibands={ib}", case_tab,
+                                    dict(P=dict(P, orders="all", first=first)), timeout=3000))
+                continue
+            out.append(Case(f"tabulate path={name} ({npts} points) k_batch={kb} batches={nbatch} orders={P['orders']} nb={nb} rank={rank} ibands={ib}", case_tab, dict(P=P), timeout=3000))
     return out
 
 
